@@ -24,6 +24,21 @@ CHECKS = {
             TRUSTED, "3 (C05)"),
 }
 
+CHECKS.update({
+    "C06": ("explicit-state enumeration of writer targets x buffer lengths executed on the real code; announced size compared with every write outcome",
+            "Every writer target (all builders in all API flavours, FCI/chunk/item builders alone, compound member lists, third-party writers; accepted and rejected configurations) is crossed with buffer lengths around the announced size; each write's result is compared with the announcement. Exhaustive inside the bounds.",
+            TRUSTED, "3 (C06)"),
+    "C07": ("explicit-state enumeration of accepted writer targets executed on the real code; byte-for-byte comparison with an independent RFC encoder (reference model)",
+            "Every representable target's bytes (written into a 0xA5-prefilled buffer) are compared byte for byte with the independent encoder's image (FIR as a multiset of entries, NACK by decode/ordering/minimality). Exhaustive inside the bounds.",
+            TRUSTED, "3 (C07)"),
+    "C16": ("explicit-state enumeration of rule-boundary configurations (full products per builder type) executed on the real code; comparison with a reference representability predicate",
+            "Every rule parameter is taken to limit-1/limit/limit+1/type-max in full products per builder type (so all pairs of violated rules occur); calculate_size must accept exactly the representable configurations and name a violated rule otherwise. Oversize packets accepted by five builder types are recorded known findings.",
+            TRUSTED, "3 (C16)"),
+    "C17": ("explicit-state enumeration of writer targets x buffer lengths executed on the real code under two complementary prefill patterns",
+            "Each (target, buffer length) is written twice into buffers pre-filled with a position-dependent pattern and its complement; claimed bytes must agree, bytes beyond must keep their prefill, failed writes must leave the buffer untouched. Exhaustive inside the bounds.",
+            TRUSTED, "3 (C17)"),
+})
+
 NOT_YET = {
 }
 
